@@ -215,6 +215,15 @@ func ServiceListUpdateEventsFromChanges(tx ReadTxn, changes Changes) ([]stream.E
 
 		kindName := changeObject(change).(*KindServiceName)
 
+		// The service list (see ServiceListSnapshot) is made of the names of
+		// typical services only. Rows of the other kinds (connect-proxy,
+		// gateways, connect-enabled, destination) carry names that either do
+		// not belong in the list or belong to a typical service that still
+		// exists when such a row goes away.
+		if kindName.Kind != structs.ServiceKindTypical {
+			continue
+		}
+
 		// TODO(peering): make this peer-aware.
 		payload := &EventPayloadServiceListUpdate{
 			Name:           kindName.Service.Name,
